@@ -158,7 +158,7 @@ class Verdicts:
     def __init__(self, pid, wd):
         self.pid, self.wd = pid, wd
         self.known = load_known()
-        self.violations, self.knownhits, self.drift = [], {}, []
+        self.violations, self.knownhits, self.drift, self.other = [], {}, [], []
         self.rdir = os.path.join(wd, "replay")
         shutil.rmtree(self.rdir, ignore_errors=True)
         os.makedirs(self.rdir, exist_ok=True)
@@ -173,7 +173,7 @@ class Verdicts:
         if rec.get("kind") in ("crash", "hang") and sc:
             inscope = inscope or pid in sc
         if not inscope:
-            self.drift.append(rec)
+            (self.other if sc else self.drift).append(rec)
             return
         k = match_known(self.known, pid, rec)
         if k is not None:
@@ -184,6 +184,13 @@ class Verdicts:
     def report(self, maxlines=40):
         for kid, (k, n) in sorted(self.knownhits.items()):
             log("KNOWN-FINDING: property=%s %s [%s; %d matching cases in this run]" % (self.pid, k.get("what", ""), kid, n))
+        if self.other:
+            byp = {}
+            for r in self.other:
+                byp.setdefault(",".join(r.get("sc") or []), []).append(r)
+            for p, rs in sorted(byp.items()):
+                log("NOTE: %d disagreement(s) on cases pinned by %s, not by %s (decided by that property's own check), e.g. rule=%s data=%s" % (
+                    len(rs), p, self.pid, trunc(rs[0].get("rule"), 120), trunc(rs[0].get("data"), 80)))
         for i, rec in enumerate(self.drift[:10]):
             log("SPEC-DRIFT: outside every property statement: rule=%s data=%s (%s)" % (rec.get("rule"), rec.get("data"), rec.get("why")))
         if len(self.drift) > 10:
